@@ -2,13 +2,13 @@ package main
 
 import (
 	"bytes"
-	"runtime"
 	"compress/gzip"
 	"encoding/json"
 	"fmt"
 	"io"
 	"math/rand"
 	"os"
+	"runtime"
 	"strings"
 	"time"
 
